@@ -97,7 +97,7 @@ pub fn raw_lib_of(v: &Value) -> raw::Library {
         let mut cell = cells[i].write().unwrap();
         if c.get("has_layout").map(|b| b.as_bool().unwrap_or(true)).unwrap_or(c.get("elems").is_some() || c.get("insts").is_some()) {
             let mut lay = raw::Layout::default();
-            lay.name = gets(c, "name").to_string();
+            lay.name = c.get("lname").and_then(|v| v.as_str()).unwrap_or(gets(c, "name")).to_string();     // a view's own name (optional)
             for inst in geta(c, "insts") {
                 let a = geti(inst, "angle");
                 lay.insts.push(raw::Instance { inst_name: gets(inst, "name").into(), cell: find(gets(inst, "cell")),
@@ -114,7 +114,7 @@ pub fn raw_lib_of(v: &Value) -> raw::Library {
             cell.layout = Some(lay);
         }
         if let Some(a) = c.get("abs").and_then(|a| a.as_array()).and_then(|a| a.first()) {
-            let mut ab = raw::Abstract::new(gets(c, "name"), raw::Polygon { points: rpts(&a["outline"]) });
+            let mut ab = raw::Abstract::new(c.get("lname").and_then(|v| v.as_str()).unwrap_or(gets(c, "name")), raw::Polygon { points: rpts(&a["outline"]) });
             for p in geta(a, "ports") {
                 let mut port = raw::AbstractPort::new(gets(p, "net"));
                 for ls in layer_groups(&p["shapes"]) {
